@@ -793,14 +793,28 @@ func gen(c *vh.Ctx) {
 		xcase(c, kOID, 2, []byte{b}, oidDepth)
 	}
 	c.Exhaustive(fmt.Sprintf("every OID body of length <= %d over the 12-value boundary alphabet", oidDepth+1))
-	// headers: every identifier octet, length octets (and high-tag continuation octets) from {00 01 7f 80 81 ff}, <= 6 bytes
-	for t := 0; t < 256; t++ {
-		xcase(c, kHdrA, 1, []byte{byte(t)}, 5)
+	// headers: identifier octet, then length octets (and high-tag continuation octets) from {00 01 7f 80 81 ff}
+	hi := []byte{0x1f, 0x3f, 0x5f, 0x7f, 0x9f, 0xbf, 0xdf, 0xff, 0x02, 0x30, 0xa0, 0x80}
+	if c.Thorough {
+		for t := 0; t < 256; t++ {
+			xcase(c, kHdrA, 1, []byte{byte(t)}, 5)
+		}
+		c.Exhaustive("encoding/asn1 parseTagAndLength: every header of <= 6 bytes with an arbitrary identifier octet and the other octets from {00,01,7f,80,81,ff}")
+	} else {
+		// the identifier octet interacts with what follows only in the high-tag form (low five bits set):
+		// all 256 identifier octets with <= 2 following octets, the 8 high-tag octets and 4 low-tag ones with <= 5
+		for t := 0; t < 256; t++ {
+			xcase(c, kHdrA, 1, []byte{byte(t)}, 2)
+		}
+		for _, t := range hi {
+			xcase(c, kHdrA, 1, []byte{t}, 5)
+		}
+		c.Exhaustive("encoding/asn1 parseTagAndLength: every header of <= 3 bytes with an arbitrary identifier octet, and of <= 6 bytes for the 8 high-tag identifier octets and 02 30 a0 80; other octets from {00,01,7f,80,81,ff}")
 	}
 	for _, t := range []byte{0x02, 0x30, 0x1f, 0x3f, 0xa0, 0x80, 0xff, 0x05, 0x00, 0x1e} {
 		xcase(c, kHdrC, 1, []byte{t}, 5)
 	}
-	c.Exhaustive("every tag/length header of <= 6 bytes with an arbitrary identifier octet (encoding/asn1; 10 identifier octets for cryptobyte, followed by 300 content bytes) and the other octets from {00,01,7f,80,81,ff}")
+	c.Exhaustive("cryptobyte readASN1: every header of <= 6 bytes for 10 identifier octets, other octets from {00,01,7f,80,81,ff}, followed by 300 content bytes")
 
 	// ---- single cases
 	for _, kind := range []int{kInt, kBool, kBits, kOID, kHdrA, kHdrC, kTime} {
